@@ -18,7 +18,7 @@ import concurrent.futures as cf
 import vlib
 from vlib import hx
 
-MODULES = ["Percival.Properties.C03"]
+MODULES = ["Percival.Properties.C03", "Percival.KAT.CpuAesni"]
 AES_REFERENCE = "none-build"          # "pmodel" once Spec.Aes / Spec.Ctr answer aesblock / ctr in `pmodel cpu`
 
 BASE = ["CPUSUPPORT_X86_CPUID", "CPUSUPPORT_X86_CPUID_COUNT"]
@@ -185,7 +185,8 @@ def reg(r):
     return r.bytes(16)
 
 
-INSNS = [("rnds2", 3), ("msg1", 2), ("msg2", 2), ("alignr4", 2), ("srli64_17", 1), ("srli64_19", 1)]
+INSNS = [("rnds2", 3), ("msg1", 2), ("msg2", 2), ("alignr4", 2), ("srli64_17", 1), ("srli64_19", 1),
+         ("aesenc", 2), ("aesenclast", 2), ("keygen01", 1), ("keygen1b", 1), ("keygen00", 1)]
 
 
 def op_insn(r):
@@ -227,6 +228,12 @@ def gen_hash(weight):
                     ops.append(op_xform(r))
                 elif k < 53:
                     ops.append(op_insn(r))
+                elif k < 58:
+                    # AES judged by the FIPS-197 transcription of Model/CpuAesni.lean (short streams: it is slow)
+                    if r.chance(1, 2):
+                        ops.append("aesblock %s %s" % (hx(rnd_key(r)), hx(r.choice([bytes(16), r.bytes(16), r.bytes(16)]))))
+                    else:
+                        ops.append(op_ctr(r, r.choice(CTR_LENS[:11] + [r.range(0, 200)])))
                 else:
                     ops.append(op_crc(r, tier, align=(ci + r.below(2)) % 16))
             cases.append(ops)
@@ -333,8 +340,9 @@ def components(ctx):
                  "buffer alignments 0..15 (swept x lengths 0..24), lengths around 7/8/9, 15/16/17, 55/56, 63/64/65, 119/120, up to 5000; "
                  "call partitions alternating below/above the 8-byte (CRC) and 64-byte (SHA) thresholds incl. 0-length calls; "
                  "1 case in 3 pins the accelerated variants (`force`), the others run the cpuid+self-test selection (`path`); "
-                 "single instructions (CRC32 8/32/64, SHA256RNDS2/MSG1/MSG2, PALIGNR, PSRLQ) on random/extreme operands against the model's SDM transcription (L2); "
-                 "L1 = Spec.Sha256 / Spec.Crc32c; non-trivial = at least one hash op; distinct by hash of the op list"
+                 "single instructions (CRC32 8/32/64, SHA256RNDS2/MSG1/MSG2, PALIGNR, PSRLQ, AESENC/AESENCLAST/AESKEYGENASSIST) on random/extreme operands "
+                 "against the model's SDM transcription (L2); AES block / short AES-CTR streams judged by the FIPS-197 transcription Model.CpuAesni.Fips; "
+                 "L1 = Spec.Sha256 / Spec.Crc32c (/ Model.CpuAesni.Fips for the AES ops); non-trivial = at least one op besides path/force; distinct by hash of the op list"
                  % (name, "+".join(feats) or "-", " ".join(paths)),
             cpu=cpu, extra=extra, ldflags=["-lcrypto"], classify=classify_for(name)))
         if name == "none":
